@@ -12,5 +12,7 @@ func init() {
 			shards: [2]int{4, 16}, checks: [2]int{400, 20000}, timeout: [2]time.Duration{5 * min, 40 * min}},
 		{name: "mutants", pkg: "./c07", run: "^TestMutateExamples$",
 			shards: [2]int{9, 16}, checks: [2]int{120, 6000}, timeout: [2]time.Duration{5 * min, 40 * min}},
+		{name: "fuzz-mutants", pkg: "./c07", fuzz: "FuzzMutateExamples",
+			shards: [2]int{0, 1}, fuzztime: [2]time.Duration{0, 8 * min}, timeout: [2]time.Duration{5 * min, 30 * min}},
 	}})
 }
